@@ -25,6 +25,7 @@ func rulesC08(c *Ctx) {
 	ruleFlushRefs(c)
 	ruleCounterCallers(c) // a flush releases references only through the audited primitives: it never forgets counts held by entries that remain (shared with C03)
 	ruleFlushScope(c)
+	ruleFlushTotal(c)
 	ruleFlushKeysPresent(c)
 	ruleExactInstanceLookup(c) // Server.Flush rejects unknown / empty names only through this lookup
 	ruleRIBCallers(c)
@@ -219,12 +220,12 @@ func ruleFlushScope(c *Ctx) {
 		isLock := f.Pkg() != nil && f.Pkg().Path() == "sync"
 		if isRemoval {
 			n++
-			if objOfIdent(info, se.X) != holder {
+			if frameArgRoot(info, fi.Decl, objOfIdent(info, se.X)) != holder {
 				bad = "a removal helper is invoked on " + types.ExprString(se.X) + ", not on the holder of the instance being flushed"
 			}
 		}
 		if isLock {
-			if inner, ok := ast.Unparen(se.X).(*ast.SelectorExpr); ok && objOfIdent(info, inner.X) != holder {
+			if inner, ok := ast.Unparen(se.X).(*ast.SelectorExpr); ok && frameArgRoot(info, fi.Decl, objOfIdent(info, inner.X)) != holder {
 				bad = "the lock taken in the flush loop is not the one of the instance being flushed"
 			}
 		}
@@ -360,4 +361,143 @@ func ruleFlushKeysPresent(c *Ctx) {
 	}
 	// errors of the helpers are accumulated into the returned FlushErr (not dropped)
 	_ = strings.TrimSpace
+}
+
+// FLUSH-TOTAL — Flush removes every entry of the instance: for each of the five tables there is a loop over the
+// whole table whose every iteration reaches the removal helper of that table with the loop's own key — no path
+// through the loop body (or through the closure it hands the key to) skips the removal with `continue`, an early
+// return or a condition on the entry. A flush that leaves entries behind and answers OK breaks "removes every entry of
+// exactly those instances".
+func ruleFlushTotal(c *Ctx) {
+	const rule = "FLUSH-TOTAL"
+	fi := c.need("rib", "RIB", "Flush")
+	ks := c.kindsOK()
+	if fi == nil || ks == nil {
+		return
+	}
+	info := fi.Pkg.TypesInfo
+	helpers := c.P.holderHelpers()
+	n := 0
+	for _, k := range ks {
+		// the loops over the whole table
+		var loops []*ast.RangeStmt
+		inspectNoFuncLit(fi.Decl.Body, func(m ast.Node) bool {
+			if rs, ok := m.(*ast.RangeStmt); ok && tableOfExpr(info, rs.X) == k.Table && rootedAtHolderR(info, rs.X) {
+				loops = append(loops, rs)
+			}
+			return true
+		})
+		// removal events: a call to a helper that deletes from this table, directly or through a local closure all
+		// of whose paths do
+		var removes func(call *ast.CallExpr, key types.Object, depth int) string
+		removes = func(call *ast.CallExpr, key types.Object, depth int) string {
+			argIsKey := func(args []ast.Expr) bool {
+				for _, a := range args {
+					if objOfIdent(info, a) == key {
+						return true
+					}
+				}
+				return false
+			}
+			if f, ok := calleeObj(info, call).(*types.Func); ok {
+				if hi := helpers[f]; hi != nil && hi.Deletes[k.Table] {
+					if argIsKey(call.Args) {
+						return "remove"
+					}
+					return "remove-otherkey"
+				}
+				return ""
+			}
+			id, ok := ast.Unparen(call.Fun).(*ast.Ident)
+			if !ok || depth > 1 {
+				return ""
+			}
+			v, ok := info.ObjectOf(id).(*types.Var)
+			if !ok {
+				return ""
+			}
+			fl, ok := ast.Unparen(soleDefinitionOrNil(info, fi.Decl, v)).(*ast.FuncLit)
+			if !ok || !argIsKey(call.Args) || len(call.Args) != 1 {
+				return ""
+			}
+			ps := paramObjsLit(info, fl)
+			if len(ps) != 1 {
+				return ""
+			}
+			total := true
+			paths, pe := enumPaths(info, fl.Body.List, func(n2 ast.Node) []Event {
+				var out []Event
+				for _, c2 := range callsIn(n2) {
+					if r := removes(c2, ps[0], depth+1); r != "" {
+						out = append(out, Event{Kind: r, Node: c2})
+					}
+				}
+				return out
+			})
+			if pe.overflow || len(paths) == 0 {
+				total = false
+			}
+			for _, p := range paths {
+				if p.End != "panic" && p.count("remove") != 1 {
+					total = false
+				}
+			}
+			if total {
+				return "remove"
+			}
+			return "remove-partial"
+		}
+		good := false
+		why := ""
+		for _, rs := range loops {
+			key := objOfIdent(info, rs.Key)
+			if key == nil {
+				continue
+			}
+			paths, pe := enumPaths(info, rs.Body.List, func(n2 ast.Node) []Event {
+				var out []Event
+				for _, c2 := range callsIn(n2) {
+					if r := removes(c2, key, 0); r != "" {
+						out = append(out, Event{Kind: r, Node: c2})
+					}
+				}
+				return out
+			})
+			if pe.overflow || len(paths) == 0 {
+				continue
+			}
+			any, all := false, true
+			bad := ""
+			for _, p := range paths {
+				if p.End == "panic" {
+					continue
+				}
+				if p.count("remove") >= 1 {
+					any = true
+				} else {
+					all = false
+					bad = p.describe(c.P)
+				}
+			}
+			if any && all {
+				good = true
+			} else if any {
+				why = "an iteration of the loop over " + k.Table + " can end without removing its entry: " + bad
+			}
+		}
+		n++
+		c.Sites++
+		if !good && why == "" {
+			why = "Flush has no loop over the whole " + k.Table + " table that removes every key it visits"
+		}
+		c.check(good, rule, fi.Name, "every "+k.Table+" entry of the instance is removed", c.P.pos(fi.Decl.Pos()), "a loop over the whole table reaches the removal helper with its own key on every path", why)
+	}
+	c.floor(rule, "tables emptied by Flush", n, 5)
+}
+
+func soleDefinitionOrNil(info *types.Info, fd *ast.FuncDecl, v *types.Var) ast.Expr {
+	if def := soleDefinition(info, fd, v); def != nil {
+		return def
+	}
+	return &ast.BadExpr{}
 }
